@@ -409,7 +409,11 @@ pub async fn run_acb_app_summary_to_console(
             if let Some(e) = err_struct.general_error {
                 write_errln!(err_printer, "Error: {e}");
             }
-            for (sec, e) in err_struct.sec_errors {
+            // Fixed order, rather than that of the HashMap
+            let mut sorted_sec_errors: Vec<(Security, Error)> =
+                err_struct.sec_errors.into_iter().collect();
+            sorted_sec_errors.sort();
+            for (sec, e) in sorted_sec_errors {
                 write_errln!(err_printer, "Error in {sec}: {e}");
             }
             return Err(());
